@@ -143,6 +143,13 @@ pub fn new(parameters: &RawParameters, ctx: &dyn Context) -> Result<Op, Error> {
                 params.texts("grids")?.join(",")
             )));
         }
+        // (three bands are deformation velocities: see the deformation operator)
+        if first.bands() > 2 {
+            return Err(Error::Unsupported(format!(
+                "gridshift: neither geoid nor datum shift grids in '{}'",
+                params.texts("grids")?.join(",")
+            )));
+        }
     }
 
     let fwd = InnerOp(fwd);
